@@ -43,6 +43,20 @@ Proof.
 Qed.
 Print Assumptions C02_rows_follow_losses.
 
+(* TOTALITY: all argument checks pass + every engine run the call issues (one per task, then the
+   trunk) succeeds in the state in which it is issued + the aggregator accepts the matrix
+   ==> the call is accepted *)
+From TJ.proofs Require Import EntrySpec C13Proofs AcceptProofs.
+Theorem C02_accepts : forall (P : prog R) (A : list (list R) -> res (list R))
+    losses features tasks shared k retain s v,
+  wf_prog P -> shared <> [] ->
+  mtl_args_ok P losses features tasks shared k retain = true ->
+  mtl_engine_ok_at P retain s losses features tasks shared ->
+  A (mtl_matrix P features shared losses) = Ok v -> length v = total P shared ->
+  exists d' s', mtl_backward_model RN P A losses features tasks shared k retain s = (Ok d', s').
+Proof. exact mtl_accepts_at. Qed.
+Print Assumptions C02_accepts.
+
 (* non-vacuity (executable instance): two tasks over one feature f = 2x; losses p*f and 3f;
    Constant(1,10): x.grad = 1*2p + 10*6 = 2*5+60, p.grad = f = 2*4 *)
 From Coq Require Import QArith.
